@@ -245,13 +245,16 @@ def dump_tables(ov, src_hash):
     return {"path": cached, "sha256": sha, "cache_hit": hit, "wall_s": round(time.time() - t0, 2)}
 
 
-def seed_kani_target(scratch):
+def seed_kani_target(scratch, name="kani-target"):
     """Per-run Kani target dir seeded (hard links) from the dependency cache built by setup."""
-    tgt = os.path.join(scratch, "kani-target")
+    tgt = os.path.join(scratch, name)
     if os.path.exists(tgt):
         return tgt
     if os.path.isdir(KANI_SEED_TARGET):
         sh(["cp", "-al", KANI_SEED_TARGET, tgt])
+        # only the dependencies are cached; the crate itself is always rebuilt from the overlay
+        for sub in ("build/masscanned", "incremental"):
+            shutil.rmtree(os.path.join(tgt, "kani", "x86_64-unknown-linux-gnu", "debug", sub), ignore_errors=True)
     else:
         os.makedirs(tgt)
     return tgt
